@@ -63,7 +63,7 @@ def _run_instance(task):
                         + ' @ ' + _where(e))
         ex = core.Explorer(run, max_paths=inst.get('max_paths', 200000),
                            max_seconds=inst.get('max_seconds', 600 if tier == 'quick' else 3000),
-                           query_timeout_ms=inst.get('qto', 60000 if tier == 'quick' else 600000),
+                           query_timeout_ms=inst.get('qto', 180000 if tier == 'quick' else 600000),
                            witness_every=inst.get('witness_every', 1), max_cex=inst.get('max_cex', 2),
                            inc_timeout_ms=inst.get('inc_to', 8000), backend=inst.get('backend', 'z3'))
         status, reason = ex.run()
